@@ -351,4 +351,11 @@ def _array_iovecs(f, facts):
         n = t.get('callee') or ''
         if n in DELEGATES:
             ok = True
+    # or inside the closure of `self.each_ref().map(|buf| IoSlice::new(buf))` / an iterator adaptor
+    for loc, s_ in f.assigns():
+        rv = s_['rv']
+        if rv['k'] == 'agg' and rv.get('ak') == 'closure':
+            g = facts.fn_opt(rv['closure'])
+            if g is not None and any((t.get('callee') or '') in DELEGATES for l2, t in g.calls()):
+                ok = True
     return 'delegate' if ok else ('unknown', 'array impl does not build elements via IoSlice::new')
